@@ -10,6 +10,8 @@ From Coq.Strings Require Import Byte.
 From GM Require Import Codec.Packet Topic.MatchSpec Broker.Backend Broker.BackendSpec
   Broker.BackendProofs Broker.BackendProofsPublish Broker.BackendProofsSteps Broker.BackendProofsHist
   Broker.BackendReadings Broker.BackendLog.
+(* further theorems of this property about the connection monitor: *)
+From GM Require Props.C06_conn.
 Import ListNotations.
 Open Scope N_scope.
 
